@@ -40,6 +40,12 @@ typedef struct glyph_t glyph_t;
  */
 #define N_GLYPHS_HIGH_WATER  (16384)
 #define N_GLYPHS_LOW_WATER   (8192)
+#if defined (PIXMAN_VERIF) && defined (PIXMAN_VERIF_GLYPH_HIGH_WATER)
+#undef  N_GLYPHS_HIGH_WATER
+#undef  N_GLYPHS_LOW_WATER
+#define N_GLYPHS_HIGH_WATER  (PIXMAN_VERIF_GLYPH_HIGH_WATER)
+#define N_GLYPHS_LOW_WATER   (PIXMAN_VERIF_GLYPH_LOW_WATER)
+#endif
 #define HASH_SIZE (2 * N_GLYPHS_HIGH_WATER)
 #define HASH_MASK (HASH_SIZE - 1)
 
@@ -102,6 +108,7 @@ lookup_glyph (pixman_glyph_cache_t *cache,
     idx = hash (font_key, glyph_key);
     while ((g = cache->glyphs[idx++ & HASH_MASK]))
     {
+	VERIF_POINT (PIXMAN_VERIF_SITE_GLYPH_PROBE, cache, PIXMAN_VERIF_READ, NULL);
 	if (g != TOMBSTONE			&&
 	    g->font_key == font_key		&&
 	    g->glyph_key == glyph_key)
@@ -127,6 +134,7 @@ insert_glyph (pixman_glyph_cache_t *cache,
      */
     do
     {
+	VERIF_POINT (PIXMAN_VERIF_SITE_GLYPH_PROBE, cache, PIXMAN_VERIF_READ, NULL);
 	loc = &cache->glyphs[idx++ & HASH_MASK];
     } while (*loc && *loc != TOMBSTONE);
 
